@@ -74,6 +74,57 @@ Theorem C11_run_is_trace : forall l st g,
     /\ (tail = [] \/ exists f, tail = [(f, Crash)]).
 Proof. exact run_is_trace. Qed.
 
+(* ---- the storage side (2026-10-02).  HEAD sends every broker-offset update through
+   helpers.TimeoutSendStorageRequest(ch, request, 1): a request storage does not take within 1 s is DROPPED (documented
+   behaviour of that helper; the return value is ignored).  `sv : storage_beh` says per offered update whether storage
+   took it in time (`delivered`); `received sv o` is what the storage module gets.  The clause "every successful answer
+   produces exactly one broker-offset update" therefore carries the named hypothesis
+       storage_in_time sv o  :=  forall u, In u (co_updates o) -> sv u = true
+   ("storage took the request within the timeout").  Without it only soundness holds (C11_stalled_storage_sound). *)
+Theorem C11_answer_to_update_delivered : forall l en sv,
+  In en (trace init_state None l) ->
+  forall t p off c, In (SBrokerOffset (t, p, off, c)) (received sv (en_out en)) <->
+     (exists b ans rest ge ps, In (b, t, p) (co_asks (en_out en)) /\ e_answer (en_env en) b = Good ans
+        /\ ans t p = (0, off :: rest)
+        /\ ghost_now en = Some ge /\ e_parts ge t = Good ps /\ c = Z.of_nat (length ps))
+     /\ sv (t, p, off, c) = true.
+Proof. exact answer_to_update_delivered. Qed.
+
+Theorem C11_answer_to_update_in_time : forall l en sv,
+  In en (trace init_state None l) -> storage_in_time sv (en_out en) ->
+  (forall t p off c, In (SBrokerOffset (t, p, off, c)) (received sv (en_out en)) <->
+     exists b ans rest ge ps, In (b, t, p) (co_asks (en_out en)) /\ e_answer (en_env en) b = Good ans
+        /\ ans t p = (0, off :: rest)
+        /\ ghost_now en = Some ge /\ e_parts ge t = Good ps /\ c = Z.of_nat (length ps))
+  /\ NoDup (map upd_key (received_updates sv (en_out en))).
+Proof. exact answer_to_update_in_time. Qed.
+
+Theorem C11_stalled_storage_sound : forall l en sv,
+  In en (trace init_state None l) ->
+  (forall u, In (SBrokerOffset u) (received sv (en_out en)) -> In u (co_updates (en_out en)))
+  /\ (forall u, In u (co_updates (en_out en)) -> ~ In (SBrokerOffset u) (received sv (en_out en)) -> sv u = false)
+  /\ NoDup (map upd_key (received_updates sv (en_out en))).
+Proof. exact stalled_storage_sound. Qed.
+
+Theorem C11_received_updates_delivered : forall sv o, received_updates sv o = filter sv (co_updates o).
+Proof. exact received_updates_delivered. Qed.
+
+(* the module's trajectory (flag, snapshot, requests to the brokers, what it offers to storage) is independent of
+   what storage does *)
+Theorem C11_run_s_forget : forall l st, map forget_storage (run_s st l) = run st (map fst l).
+Proof. exact run_s_forget. Qed.
+
+Theorem C11_run_s_is_trace : forall l st g,
+  exists tail,
+    run_s st l = map (fun x => (fetchMetadata (en_pre (fst x)), Done (en_out (fst x), received (snd x) (en_out (fst x)))))
+                     (combine (trace st g (map fst l)) (map snd l)) ++ tail
+    /\ (tail = [] \/ exists f, tail = [(f, Crash)]).
+Proof. exact run_s_is_trace. Qed.
+
+(* non-vacuity of the hypothesis: a storage that is always in time satisfies it on every cycle *)
+Example C11_storage_in_time_prompt : forall o, storage_in_time prompt o.
+Proof. exact storage_in_time_prompt. Qed.
+
 Print Assumptions C11_asked_exactly_leaders.
 Print Assumptions C11_asked_exactly_leaders_refreshed.
 Print Assumptions C11_leaderless_not_asked.
@@ -85,3 +136,9 @@ Print Assumptions C11_count_bounds_partition.
 Print Assumptions C11_no_crash.
 Print Assumptions C11_run_entries.
 Print Assumptions C11_run_is_trace.
+Print Assumptions C11_answer_to_update_delivered.
+Print Assumptions C11_answer_to_update_in_time.
+Print Assumptions C11_stalled_storage_sound.
+Print Assumptions C11_received_updates_delivered.
+Print Assumptions C11_run_s_forget.
+Print Assumptions C11_run_s_is_trace.
